@@ -23,8 +23,10 @@ struct GFRef {
     }
     double drop_at(cd z) const { double s = 0; for (size_t k = 0; k < dropR.size(); ++k) s += dropR[k] / std::max(1e-300, std::abs(z - dropP[k]) - 2e-6); return s; }
     double merge_at(cd z) const { double s = 0; for (size_t k = 0; k < L.R.size(); ++k) { double d = std::abs(z - L.P[k]); s += std::abs(L.R[k]) / (d * d); } return 2e-8 * s; }
-    double tol_at(cd z, double S) const { return 1e-7 * S + drop_at(z) + merge_at(z); }
+    double tol_at(cd z, double S) const { return 1e-7 * S + drop_at(z) + merge_at(z) + 1e-14; }      // absolute floor: at beta x gap ~ 700 the reference itself is a denormal number
 };
+
+std::string sci(cd v) { char b[96]; snprintf(b, sizeof b, "(%.6e,%.6e)", v.real(), v.imag()); return b; }
 
 std::vector<long> matsubara_set() { std::vector<long> n; for (long k = -3; k <= 2; ++k) n.push_back(k); n.push_back(50); n.push_back(-50); return n; }
 
@@ -75,7 +77,7 @@ void container_histories(const Args& a, Recorder& rec, Clock& clk) {
 int run_c01(const Args& a, Recorder& rec) {
     Clock clk; std::vector<double> betas = { 0.5, 5, 40 }; if (a.thorough()) { betas.push_back(1e-3); betas.push_back(1e3); }
     std::vector<SymMode> modes = { SYM_DEFAULT, SYM_IGNORE }; std::vector<long> ns = matsubara_set();
-    for_each_state(a, rec, plan_modelspace(a, "g"), [&](Ctx& c0) {
+    for_each_state(a, rec, plan_modelspace(a, "G"), [&](Ctx& c0) {
         bool counted = false;
         for (SymMode mode : modes) {
             Ctx c; c.sh = c0.sh; c.A = c0.A; c.st = c0.st; c.repr = c0.repr;
@@ -101,7 +103,7 @@ int run_c01(const Args& a, Recorder& rec) {
                         if (std::abs(g1 - g2) > 1e-10 * (1 + std::abs(g1)) + 2 * R.drop_at(z)) rec.violation("C01:paths", "stand-alone GreensFunction and GFContainer(i,j) disagree", kase + " n=" + std::to_string(n));
                         if (std::abs(g1 - g1z) > 1e-10 * (1 + std::abs(g1))) rec.violation("C01:matsubara-number", "operator()(long n) differs from operator()(i(2n+1)pi/beta)", kase + " n=" + std::to_string(n));
                         double tol = R.tol_at(z, ref.S);
-                        if (!rec.within(std::abs(g1 - ref.v), tol, kase)) rec.violation(std::string("C01:value:") + (i == j ? "diagonal" : "offdiagonal"), "G_ij(iw_n) differs from the exact-diagonalisation value: lib=(" + std::to_string(g1.real()) + "," + std::to_string(g1.imag()) + ") ref=(" + std::to_string(ref.v.real()) + "," + std::to_string(ref.v.imag()) + ") tol=" + std::to_string(tol), kase + " n=" + std::to_string(n));
+                        if (!rec.within(std::abs(g1 - ref.v), tol, kase)) rec.violation(std::string("C01:value:") + (i == j ? "diagonal" : "offdiagonal"), "G_ij(iw_n) differs from the exact-diagonalisation value: lib=" + sci(g1) + " ref=" + sci(ref.v) + " tol=" + sci(cd(tol, 0)) + " scale=" + sci(cd(ref.S, 0)) + " drop=" + sci(cd(R.drop_at(z), 0)) + " merge=" + sci(cd(R.merge_at(z), 0)), kase + " n=" + std::to_string(n));
                         if (!rec.within(std::abs(g2 - ref.v), tol, kase)) rec.violation(std::string("C01:value-container:") + (i == j ? "diagonal" : "offdiagonal"), "GFContainer G_ij(iw_n) differs from the exact-diagonalisation value", kase + " n=" + std::to_string(n));
                     }
                     if (refmax > 1e-6 && G1.isVanishing()) rec.violation("C01:vanishing", "isVanishing() is true for a non-vanishing component", kase);
@@ -116,7 +118,7 @@ int run_c01(const Args& a, Recorder& rec) {
 int run_c11(const Args& a, Recorder& rec) {
     Clock clk; std::vector<double> betas = { 0.5, 5, 40, 1e3 };
     std::vector<SymMode> modes = { SYM_DEFAULT }; if (a.thorough()) modes.push_back(SYM_IGNORE);
-    for_each_state(a, rec, plan_modelspace(a, "g"), [&](Ctx& c0) {
+    for_each_state(a, rec, plan_modelspace(a, "G"), [&](Ctx& c0) {
         bool counted = false;
         for (SymMode mode : modes) {
             Ctx c; c.sh = c0.sh; c.A = c0.A; c.st = c0.st; c.repr = c0.repr;
